@@ -1,6 +1,617 @@
-//! C33: not implemented yet.
+//! C33: CAWG identity assertions bind exactly the referenced assertions.
+//!
+//! op "e2e": build an asset whose manifest carries an X.509 CAWG identity assertion made by the SDK's own
+//!   `IdentityAssertionBuilder` + `X509CredentialHolder`, optionally altered
+//!     * `pre`  - inside `DynamicAssertion::content`, i.e. before the claim hashes it (the C2PA manifest stays
+//!                consistent: only the CAWG layer can notice), or
+//!     * `post` - in the bytes of the finished asset,
+//!   then read it (sync / async; inline decoding or `post_validate_async` with `CawgValidator`) under the
+//!   case's CAWG trust settings.
+//!   case: {op, fmt, asset, c2pa_alg, cawg_alg, extra:[{label,data}], refs:[label], roles:[..],
+//!          pre: mutation|null, post: mutation|null, trust:{verify, anchors:"c2pa"|"partial"|"none"},
+//!          decode: bool, mode:"sync"|"async", post_validate: bool}
+//!   mutation: {k:"flip", field, idx, off, xor}        field: pad1 pad2 sigval sig_protected sig_other
+//!                                                             ref_hash ref_url sig_type role ref_data(post only, token)
+//!             {k:"dup_ref", idx, resign} {k:"drop_hard", resign} {k:"add_missing", resign}
+//!             {k:"alter_hash", idx, resign} {k:"sig_type", value, resign} {k:"pad", which, len}
+//! op "unit": `IdentityAssertion::validate_partial_claim` (hook) on a synthetic claim and identity assertion.
+//!   case: {op, claim:[[url,hashhex]], refs:[[url,hashhex]], sig_type, roles, pad1:hex, pad2:hex|null,
+//!          sig:"valid"|"other"|"garbage"|"nocert"|"empty", cawg_alg, stop:bool, trust:{..}}
+//!   out:  {r, res:"ok"|error variant, items:[[code,kind]]}
+use std::{
+    future::Future,
+    io::Cursor,
+    sync::{Arc, Mutex},
+    task::{Context as TaskContext, Poll, Wake, Waker},
+};
+
+use c2pa::{
+    dynamic_assertion::{DynamicAssertion, DynamicAssertionContent, PartialClaim},
+    identity::{
+        builder::{CredentialHolder, IdentityAssertionBuilder},
+        validator::CawgValidator,
+        x509::X509CredentialHolder,
+        SignerPayload,
+    },
+    status_tracker::{ErrorBehavior, LogKind, StatusTracker},
+    verif_hooks::c33 as hook,
+    Builder, Context, HashedUri, RawSigner, RawSignerError, Reader, Signer, SigningAlg,
+};
 use serde_json::{json, Value};
 
-pub fn run(_case: &Value) -> Value {
-    json!({"r": "unimplemented"})
+use crate::{e2e, util::*};
+
+// ------------------------------------------------------------------------------------------------ executor
+
+struct ThreadWaker(std::thread::Thread);
+impl Wake for ThreadWaker {
+    fn wake(self: Arc<Self>) {
+        self.0.unpark();
+    }
+}
+
+/// Minimal single-future executor (the CAWG X.509 path performs no I/O).
+pub fn block_on<F: Future>(f: F) -> F::Output {
+    let mut f = std::pin::pin!(f);
+    let waker: Waker = Arc::new(ThreadWaker(std::thread::current())).into();
+    let mut cx = TaskContext::from_waker(&waker);
+    loop {
+        match f.as_mut().poll(&mut cx) {
+            Poll::Ready(v) => return v,
+            Poll::Pending => std::thread::park_timeout(std::time::Duration::from_millis(5)),
+        }
+    }
+}
+
+// ------------------------------------------------------------------------------------------------ CAWG signer pieces
+
+/// The raw signature primitive of a fixture signer (`Signer::sign` of `create_signer::from_keys` is the raw signature).
+struct RawFromSigner(c2pa::BoxedSigner, usize);
+impl RawSigner for RawFromSigner {
+    fn sign(&self, data: &[u8]) -> Result<Vec<u8>, RawSignerError> {
+        self.0.sign(data).map_err(|e| RawSignerError::InternalError(e.to_string()))
+    }
+    fn alg(&self) -> SigningAlg {
+        self.0.alg()
+    }
+    fn max_signature_size(&self) -> usize {
+        self.1
+    }
+}
+
+fn sig_size(alg: &str) -> usize {
+    match alg {
+        "es256" => 64,
+        "es384" => 96,
+        "es512" => 132,
+        "ed25519" => 64,
+        _ => 512,
+    }
+}
+
+fn holder(alg: &str) -> X509CredentialHolder {
+    let s = e2e::signer(alg);
+    let chain = s.certs().expect("cawg certs");
+    X509CredentialHolder::from_raw_signer(Box::new(RawFromSigner(s, sig_size(alg))), chain)
+}
+
+#[derive(Default)]
+struct Record {
+    cbor: Option<Vec<u8>>,
+    original: Option<Vec<u8>>,
+    note: Option<String>,
+    claim: Vec<(String, String)>,
+    size: Option<usize>,
+}
+
+struct MutDyn {
+    inner: IdentityAssertionBuilder,
+    holder: X509CredentialHolder,
+    pre: Value,
+    rec: Arc<Mutex<Record>>,
+}
+
+fn find(hay: &[u8], needle: &[u8]) -> Option<usize> {
+    if needle.is_empty() || needle.len() > hay.len() {
+        return None;
+    }
+    hay.windows(needle.len()).position(|w| w == needle)
+}
+
+fn rfind(hay: &[u8], needle: &[u8]) -> Option<usize> {
+    if needle.is_empty() || needle.len() > hay.len() {
+        return None;
+    }
+    hay.windows(needle.len()).rposition(|w| w == needle)
+}
+
+/// (start, len) of the content of the byte string that follows the text key `key` in `cbor`.
+fn bstr_after_key(cbor: &[u8], key: &str) -> Option<(usize, usize)> {
+    let mut k = vec![0x60u8 + key.len() as u8];
+    k.extend_from_slice(key.as_bytes());
+    let p = find(cbor, &k)? + k.len();
+    let h = *cbor.get(p)?;
+    if h >> 5 != 2 {
+        return None;
+    }
+    let ai = h & 0x1f;
+    let (n, hl) = match ai {
+        0..=23 => (ai as usize, 1),
+        24 => (*cbor.get(p + 1)? as usize, 2),
+        25 => (u16::from_be_bytes([*cbor.get(p + 1)?, *cbor.get(p + 2)?]) as usize, 3),
+        26 => (u32::from_be_bytes([*cbor.get(p + 1)?, *cbor.get(p + 2)?, *cbor.get(p + 3)?, *cbor.get(p + 4)?]) as usize, 5),
+        _ => return None,
+    };
+    Some((p + hl, n))
+}
+
+/// Byte range (start, len) of a named field inside the CBOR of an identity assertion, plus a note.
+fn field_range(cbor: &[u8], field: &str, idx: usize) -> Result<(usize, usize, String), String> {
+    let (sp, sig, _p1, _p2) = hook::ia_from_cbor(cbor).map_err(|e| format!("decode: {e}"))?;
+    let spc = hook::signer_payload_cbor(&sp).map_err(|e| format!("{e}"))?;
+    let sp_at = find(cbor, &spc).ok_or("payload not found")?;
+    let sig_at = rfind(cbor, &sig).ok_or("signature not found")?;
+    let within_payload = |needle: &[u8], nth: usize| -> Option<usize> {
+        let mut from = 0;
+        let mut hit = None;
+        for _ in 0..=nth {
+            let p = find(&spc[from..], needle)? + from;
+            hit = Some(p);
+            from = p + 1;
+        }
+        hit.map(|p| sp_at + p)
+    };
+    match field {
+        "pad1" | "pad2" => {
+            let (s, n) = bstr_after_key(cbor, field).ok_or(format!("{field} absent"))?;
+            Ok((s, n, String::new()))
+        }
+        "payload" => Ok((sp_at, spc.len(), String::new())),
+        "signature" => Ok((sig_at, sig.len(), String::new())),
+        "sigval" | "sig_protected" | "sig_other" => {
+            use c2pa::verif_hooks::c14::coset::{CoseSign1, TaggedCborSerializable, CborSerializable};
+            let s1 = CoseSign1::from_tagged_slice(&sig).or_else(|_| CoseSign1::from_slice(&sig)).map_err(|e| format!("cose: {e:?}"))?;
+            let sv = rfind(&sig, &s1.signature).ok_or("sigval not found")?;
+            let prot = s1.protected.original_data.clone().unwrap_or_default();
+            let pv = find(&sig, &prot);
+            match field {
+                "sigval" => Ok((sig_at + sv, s1.signature.len(), String::new())),
+                "sig_protected" => {
+                    let p = pv.ok_or("protected header not found")?;
+                    Ok((sig_at + p, prot.len(), String::new()))
+                }
+                _ => {
+                    // everything of the COSE_Sign1 that is neither the protected header nor the signature value
+                    let p = pv.map(|p| p + prot.len()).unwrap_or(0);
+                    if sv <= p {
+                        return Err("no unprotected part".into());
+                    }
+                    Ok((sig_at + p, sv - p, String::new()))
+                }
+            }
+        }
+        "ref_hash" => {
+            let r = sp.referenced_assertions.get(idx % sp.referenced_assertions.len().max(1)).ok_or("no refs")?;
+            let h = r.hash();
+            let p = within_payload(&h, 0).ok_or("hash not found")?;
+            Ok((p, h.len(), r.url()))
+        }
+        "ref_url" => {
+            let r = sp.referenced_assertions.get(idx % sp.referenced_assertions.len().max(1)).ok_or("no refs")?;
+            let u = r.url();
+            let p = within_payload(u.as_bytes(), 0).ok_or("url not found")?;
+            // only the label part (after the last '/'): the prefix is shared by every reference
+            let lab = u.rfind('/').map(|i| i + 1).unwrap_or(0);
+            Ok((p + lab, u.len() - lab, u))
+        }
+        "sig_type" => {
+            let p = within_payload(sp.sig_type.as_bytes(), 0).ok_or("sig_type not found")?;
+            Ok((p, sp.sig_type.len(), String::new()))
+        }
+        "role" => {
+            let r = sp.roles.get(idx % sp.roles.len().max(1)).ok_or("no roles")?;
+            let p = within_payload(r.as_bytes(), 0).ok_or("role not found")?;
+            Ok((p, r.len(), r.clone()))
+        }
+        _ => Err(format!("unknown field {field}")),
+    }
+}
+
+fn flip_in(cbor: &mut [u8], m: &Value) -> Result<String, String> {
+    let field = m["field"].as_str().unwrap_or("");
+    let (s, n, note) = field_range(cbor, field, m["idx"].as_u64().unwrap_or(0) as usize)?;
+    if n == 0 {
+        return Err(format!("{field} is empty"));
+    }
+    let off = (m["off"].as_u64().unwrap_or(0) as usize) % n;
+    let x = (m["xor"].as_u64().unwrap_or(1) as u8).max(1);
+    cbor[s + off] ^= x;
+    Ok(format!("{field}[{off}/{n}] {note}"))
+}
+
+/// Re-assemble an identity assertion of exactly `size` bytes (the SDK's own padding recipe) or unpadded.
+fn assemble(sp: SignerPayload, sig: Vec<u8>, size: Option<usize>, pad_override: &Value) -> Result<Vec<u8>, String> {
+    let e = |x: c2pa::Error| format!("{x}");
+    let bare = hook::ia_to_cbor(sp.clone(), sig.clone(), vec![], None).map_err(e)?;
+    let Some(size) = size else {
+        if pad_override["k"].as_str() == Some("pad") {
+            let n = pad_override["len"].as_u64().unwrap_or(4) as usize;
+            let mut p = vec![0u8; n];
+            p[n / 2] = 0x5a;
+            return if pad_override["which"].as_u64() == Some(2) {
+                hook::ia_to_cbor(sp, sig, vec![0u8; 3], Some(p)).map_err(e)
+            } else {
+                hook::ia_to_cbor(sp, sig, p, None).map_err(e)
+            };
+        }
+        return Ok(bare);
+    };
+    if bare.len() + 21 > size {
+        return Err(format!("altered assertion ({}) does not fit the reserved size {size}", bare.len()));
+    }
+    let pad1 = vec![0u8; size - bare.len() - 15];
+    let c1 = hook::ia_to_cbor(sp.clone(), sig.clone(), pad1.clone(), None).map_err(e)?;
+    let pad2 = vec![0u8; size - c1.len() - 6];
+    let c2 = hook::ia_to_cbor(sp, sig, pad1, Some(pad2)).map_err(e)?;
+    if c2.len() != size {
+        return Err(format!("padding recipe gave {} for {size}", c2.len()));
+    }
+    Ok(c2)
+}
+
+impl MutDyn {
+    fn mutate(&self, cbor: Vec<u8>, size: Option<usize>, claim: &PartialClaim) -> Result<(Vec<u8>, String), String> {
+        let m = &self.pre;
+        let k = m["k"].as_str().unwrap_or("none");
+        if k == "none" {
+            return Ok((cbor, String::new()));
+        }
+        if k == "flip" {
+            let mut c = cbor;
+            let note = flip_in(&mut c, m)?;
+            return Ok((c, note));
+        }
+        let (mut sp, sig, _p1, _p2) = hook::ia_from_cbor(&cbor).map_err(|e| format!("{e}"))?;
+        let n = sp.referenced_assertions.len();
+        let idx = (m["idx"].as_u64().unwrap_or(0) as usize) % n.max(1);
+        let mut note = String::new();
+        match k {
+            "dup_ref" => {
+                let r = sp.referenced_assertions.get(idx).ok_or("no refs")?.clone();
+                note = r.url();
+                let at = (m["at"].as_u64().unwrap_or(n as u64) as usize).min(n);
+                sp.referenced_assertions.insert(at, r);
+            }
+            "drop_hard" => sp.referenced_assertions.retain(|r| !r.url().contains("c2pa.hash.")),
+            "add_missing" => {
+                let base = claim.assertions().next().map(|a| a.url()).unwrap_or_default();
+                let pre = base.rfind('/').map(|i| &base[..=i]).unwrap_or("");
+                let url = format!("{pre}{}", m["label"].as_str().unwrap_or("verif.not.in.claim"));
+                note = url.clone();
+                sp.referenced_assertions.push(HashedUri::new(url, None, &[7u8; 32]));
+            }
+            "alter_hash" => {
+                let r = sp.referenced_assertions.get(idx).ok_or("no refs")?.clone();
+                let mut h = r.hash();
+                let l = h.len().max(1);
+                h[(m["off"].as_u64().unwrap_or(0) as usize) % l] ^= 0x01;
+                note = r.url();
+                sp.referenced_assertions[idx] = HashedUri::new(r.url(), r.alg(), &h);
+            }
+            "sig_type" => sp.sig_type = m["value"].as_str().unwrap_or("cawg.x509.cosf").to_string(),
+            "pad" => {}
+            _ => return Err(format!("unknown mutation {k}")),
+        }
+        let sig = if m["resign"].as_bool().unwrap_or(true) {
+            self.holder.sign(&sp).map_err(|e| format!("resign: {e}"))?
+        } else {
+            sig
+        };
+        if k == "pad" {
+            // non-zero padding written by the producer: same parts, pad of the requested field carries one non-zero byte
+            let mut c = assemble(sp, sig, size, m)?;
+            if size.is_some() {
+                let field = if m["which"].as_u64() == Some(2) { "pad2" } else { "pad1" };
+                let (s, n, _) = field_range(&c, field, 0)?;
+                if n == 0 {
+                    return Err(format!("{field} is empty"));
+                }
+                c[s + (m["off"].as_u64().unwrap_or(0) as usize) % n] = 0x5a;
+            }
+            return Ok((c, "pad".into()));
+        }
+        Ok((assemble(sp, sig, size, &Value::Null)?, note))
+    }
+}
+
+impl DynamicAssertion for MutDyn {
+    fn label(&self) -> String {
+        self.inner.label()
+    }
+
+    fn reserve_size(&self) -> c2pa::Result<usize> {
+        self.inner.reserve_size()
+    }
+
+    fn content(&self, label: &str, size: Option<usize>, claim: &PartialClaim) -> c2pa::Result<DynamicAssertionContent> {
+        let c = self.inner.content(label, size, claim)?;
+        let DynamicAssertionContent::Cbor(cbor) = c else {
+            return Ok(c);
+        };
+        let mut rec = self.rec.lock().unwrap();
+        rec.original = Some(cbor.clone());
+        rec.size = size;
+        rec.claim = claim.assertions().map(|a| (a.url(), hex::encode(a.hash()))).collect();
+        match self.mutate(cbor.clone(), size, claim) {
+            Ok((c2, note)) => {
+                rec.note = Some(note);
+                rec.cbor = Some(c2.clone());
+                Ok(DynamicAssertionContent::Cbor(c2))
+            }
+            Err(why) => {
+                rec.note = Some(format!("NOT-APPLIED: {why}"));
+                rec.cbor = Some(cbor.clone());
+                Ok(DynamicAssertionContent::Cbor(cbor))
+            }
+        }
+    }
+}
+
+struct CawgSigner {
+    inner: c2pa::BoxedSigner,
+    cawg_alg: String,
+    refs: Vec<String>,
+    roles: Vec<String>,
+    pre: Value,
+    rec: Arc<Mutex<Record>>,
+}
+
+impl Signer for CawgSigner {
+    fn sign(&self, data: &[u8]) -> c2pa::Result<Vec<u8>> {
+        self.inner.sign(data)
+    }
+    fn alg(&self) -> SigningAlg {
+        self.inner.alg()
+    }
+    fn certs(&self) -> c2pa::Result<Vec<Vec<u8>>> {
+        self.inner.certs()
+    }
+    fn reserve_size(&self) -> usize {
+        self.inner.reserve_size()
+    }
+    fn dynamic_assertions(&self) -> Vec<Box<dyn DynamicAssertion>> {
+        let mut iab = IdentityAssertionBuilder::for_credential_holder(holder(&self.cawg_alg));
+        let r: Vec<&str> = self.refs.iter().map(|s| s.as_str()).collect();
+        if !r.is_empty() {
+            iab.add_referenced_assertions(&r);
+        }
+        let ro: Vec<&str> = self.roles.iter().map(|s| s.as_str()).collect();
+        if !ro.is_empty() {
+            iab.add_roles(&ro);
+        }
+        vec![Box::new(MutDyn { inner: iab, holder: holder(&self.cawg_alg), pre: self.pre.clone(), rec: self.rec.clone() })]
+    }
+}
+
+// ------------------------------------------------------------------------------------------------ settings
+
+fn anchors_pem(kind: &str) -> Option<String> {
+    let all = String::from_utf8(e2e::fixture("certs/trust/test_cert_root_bundle.pem")).expect("utf8");
+    match kind {
+        "c2pa" => Some(all),
+        // only the first root of the bundle
+        "partial" => all.find("-----END CERTIFICATE-----").map(|i| all[..i + 25].to_string() + "\n"),
+        _ => None,
+    }
+}
+
+fn read_settings(case: &Value) -> String {
+    let t = &case["trust"];
+    let mut cawg = serde_json::Map::new();
+    cawg.insert("verify_trust_list".into(), json!(t["verify"].as_bool().unwrap_or(true)));
+    if let Some(p) = anchors_pem(t["anchors"].as_str().unwrap_or("none")) {
+        cawg.insert((if t["user"].as_bool().unwrap_or(false) { "user_anchors" } else { "trust_anchors" }).into(), json!(p));
+    }
+    json!({"cawg_trust": cawg, "core": {"decode_identity_assertions": case["decode"].as_bool().unwrap_or(true)},
+           "verify": {"ocsp_fetch": false, "remote_manifest_fetch": false}})
+    .to_string()
+}
+
+fn sorted_codes(v: &[c2pa::validation_status::ValidationStatus]) -> Vec<String> {
+    let mut c: Vec<String> = v.iter().map(|s| s.code().to_string()).collect();
+    c.sort();
+    c
+}
+
+fn summary(r: &Reader) -> Value {
+    let mut out = json!({"state": format!("{:?}", r.validation_state()), "failure": [], "success": [], "informational": [], "deltas": []});
+    if let Some(vr) = r.validation_results() {
+        if let Some(a) = vr.active_manifest() {
+            out["failure"] = json!(sorted_codes(a.failure()));
+            out["success"] = json!(sorted_codes(a.success()).into_iter().filter(|c| c.starts_with("cawg.") || c.starts_with("claimSignature")).collect::<Vec<_>>());
+            out["informational"] = json!(sorted_codes(a.informational()).into_iter().filter(|c| c.starts_with("cawg.")).collect::<Vec<_>>());
+        }
+        if let Some(ds) = vr.ingredient_deltas() {
+            let mut all = vec![];
+            for d in ds {
+                all.extend(sorted_codes(d.validation_deltas().failure()));
+            }
+            out["deltas"] = json!(all);
+        }
+    }
+    // was the identity assertion rendered as a validated summary (validation returned Ok) ?
+    let mut decoded = Value::Null;
+    if let Some(m) = r.active_manifest() {
+        for a in m.assertions() {
+            if a.label() == "cawg.identity" || a.label().starts_with("cawg.identity__") {
+                if let Ok(v) = a.value() {
+                    decoded = json!(v.get("signature_info").is_some() || v.get("signer_payload").map(|p| p.get("referenced_assertions").is_some()).unwrap_or(false) && v.get("signature").is_none());
+                }
+            }
+        }
+    }
+    out["validated_summary"] = decoded;
+    out
+}
+
+// ------------------------------------------------------------------------------------------------ e2e
+
+fn run_e2e(case: &Value) -> Value {
+    let fmt = case["fmt"].as_str().unwrap_or("image/jpeg");
+    let src = e2e::fixture(case["asset"].as_str().unwrap_or("C.jpg"));
+    let mut def: Value = serde_json::from_str(&e2e::minimal_manifest("c33")).unwrap();
+    if let Some(extra) = case["extra"].as_array() {
+        for a in extra {
+            def["assertions"].as_array_mut().unwrap().push(a.clone());
+        }
+    }
+    let rec = Arc::new(Mutex::new(Record::default()));
+    let strs = |v: &Value| -> Vec<String> { v.as_array().map(|a| a.iter().filter_map(|x| x.as_str().map(String::from)).collect()).unwrap_or_default() };
+    let signer = CawgSigner {
+        inner: e2e::signer(case["c2pa_alg"].as_str().unwrap_or("es256")),
+        cawg_alg: case["cawg_alg"].as_str().unwrap_or("ed25519").to_string(),
+        refs: strs(&case["refs"]),
+        roles: strs(&case["roles"]),
+        pre: case["pre"].clone(),
+        rec: rec.clone(),
+    };
+    let sctx = e2e::context_merged(Some(r#"{"verify":{"verify_after_sign":false},"builder":{"thumbnail":{"enabled":false}}}"#));
+    let mut asset = match e2e::sign(sctx, &def.to_string(), fmt, &src, &signer) {
+        Ok(a) => a,
+        Err(e) => {
+            let note = rec.lock().unwrap().note.clone();
+            return json!({"r": "err", "stage": "sign", "kind": err_class(&e), "detail": format!("{e}").chars().take(200).collect::<String>(), "note": note});
+        }
+    };
+    let (cbor, original, note, claim, size) = {
+        let r = rec.lock().unwrap();
+        (r.cbor.clone().unwrap_or_default(), r.original.clone().unwrap_or_default(), r.note.clone().unwrap_or_default(), r.claim.clone(), r.size)
+    };
+    // post mutation: in the bytes of the finished asset
+    let mut post_note = Value::Null;
+    let mut final_cbor = cbor.clone();
+    let post = &case["post"];
+    if post["k"].as_str() == Some("flip") {
+        let res: Result<String, String> = (|| {
+            if post["field"].as_str() == Some("ref_data") {
+                let tok = post["token"].as_str().ok_or("token")?.as_bytes();
+                let p = find(&asset, tok).ok_or("token not found in asset")?;
+                let off = (post["off"].as_u64().unwrap_or(0) as usize) % tok.len();
+                asset[p + off] ^= (post["xor"].as_u64().unwrap_or(1) as u8).max(1);
+                return Ok(format!("ref_data[{off}]"));
+            }
+            let at = find(&asset, &cbor).ok_or("identity assertion not contiguous in asset")?;
+            let mut c = cbor.clone();
+            let n = flip_in(&mut c, post)?;
+            asset[at..at + c.len()].copy_from_slice(&c);
+            final_cbor = c;
+            Ok(n)
+        })();
+        post_note = match res {
+            Ok(n) => json!(n),
+            Err(w) => json!(format!("NOT-APPLIED: {w}")),
+        };
+    }
+    let mut ia = json!({"len": final_cbor.len(), "note": note, "size": size, "changed": final_cbor != original});
+    if let Ok((sp, sig, p1, p2)) = hook::ia_from_cbor(&final_cbor) {
+        ia["refs"] = json!(sp.referenced_assertions.iter().map(|r| json!([r.url(), hex::encode(r.hash())])).collect::<Vec<_>>());
+        ia["sig_type"] = json!(sp.sig_type);
+        ia["roles"] = json!(sp.roles);
+        ia["sig_len"] = json!(sig.len());
+        ia["pad1"] = json!(p1.len());
+        ia["pad2"] = json!(p2.as_ref().map(|p| p.len()));
+        ia["pad1_zero"] = json!(p1.iter().all(|b| *b == 0));
+        ia["pad2_zero"] = json!(p2.as_ref().map(|p| p.iter().all(|b| *b == 0)).unwrap_or(true));
+    } else {
+        ia["undecodable"] = json!(true);
+    }
+    ia["claim"] = json!(claim.iter().map(|(u, h)| json!([u, h])).collect::<Vec<_>>());
+    let rs = read_settings(case);
+    let ctx = Arc::new(e2e::context_merged(Some(&rs)));
+    let is_async = case["mode"].as_str() == Some("async");
+    let rd = if is_async {
+        block_on(Reader::from_shared_context(&ctx).with_stream_async(fmt, Cursor::new(asset.clone())))
+    } else {
+        Reader::from_shared_context(&ctx).with_stream(fmt, Cursor::new(asset.clone()))
+    };
+    let mut reader = match rd {
+        Ok(r) => r,
+        Err(e) => return json!({"r": "err", "stage": "read", "kind": err_class(&e), "detail": format!("{e}").chars().take(200).collect::<String>(), "ia": ia, "post_note": post_note}),
+    };
+    let first = summary(&reader);
+    let mut after = Value::Null;
+    if case["post_validate"].as_bool().unwrap_or(false) {
+        let v = CawgValidator::new(&ctx);
+        match block_on(reader.post_validate_async(&v)) {
+            Ok(()) => after = summary(&reader),
+            Err(e) => after = json!({"err": err_class(&e)}),
+        }
+    }
+    json!({"r": "ok", "read": first, "post": after, "ia": ia, "post_note": post_note})
+}
+
+// ------------------------------------------------------------------------------------------------ unit
+
+fn refs_of(v: &Value) -> Vec<HashedUri> {
+    v.as_array()
+        .map(|a| a.iter().map(|p| HashedUri::new(p[0].as_str().unwrap_or("").to_string(), None, &hexd(&p[1]))).collect())
+        .unwrap_or_default()
+}
+
+fn run_unit(case: &Value) -> Value {
+    let claim = hook::partial_claim(&refs_of(&case["claim"]));
+    let strs = |v: &Value| -> Vec<String> { v.as_array().map(|a| a.iter().filter_map(|x| x.as_str().map(String::from)).collect()).unwrap_or_default() };
+    let sp = SignerPayload { referenced_assertions: refs_of(&case["refs"]), sig_type: case["sig_type"].as_str().unwrap_or("cawg.x509.cose").to_string(), roles: strs(&case["roles"]) };
+    let h = holder(case["cawg_alg"].as_str().unwrap_or("ed25519"));
+    let sig = match case["sig"].as_str().unwrap_or("valid") {
+        "valid" => h.sign(&sp).expect("sign"),
+        "other" => {
+            let mut o = sp.clone();
+            o.roles.push("verif.other".into());
+            h.sign(&o).expect("sign")
+        }
+        // a well-formed COSE_Sign1 without an algorithm / with an algorithm (EdDSA) but without a certificate chain
+        "garbage" => vec![0xd2, 0x84, 0x41, 0xa0, 0xa0, 0xf6, 0x43, 1, 2, 3],
+        "nocert" => vec![0xd2, 0x84, 0x43, 0xa1, 0x01, 0x27, 0xa0, 0xf6, 0x43, 1, 2, 3],
+        _ => vec![],
+    };
+    let pad2 = if case["pad2"].is_null() { None } else { Some(hexd(&case["pad2"])) };
+    let cbor = match hook::ia_to_cbor(sp, sig, hexd(&case["pad1"]), pad2) {
+        Ok(c) => c,
+        Err(e) => return json!({"r": "err", "stage": "encode", "kind": err_class(&e)}),
+    };
+    let mut tr = StatusTracker::with_error_behavior(if case["stop"].as_bool().unwrap_or(false) { ErrorBehavior::StopOnFirstError } else { ErrorBehavior::ContinueWhenPossible });
+    let ctx = e2e::context_merged(Some(&read_settings(case)));
+    let res = match hook::validate_partial_claim(&cbor, &claim, &mut tr, &ctx) {
+        Ok(r) => r,
+        Err(e) => return json!({"r": "err", "stage": "decode", "kind": err_class(&e)}),
+    };
+    let items: Vec<Value> = tr
+        .logged_items()
+        .iter()
+        .map(|i| {
+            json!([i.validation_status.as_deref().unwrap_or(""), match i.kind {
+                LogKind::Success => "S",
+                LogKind::Informational => "I",
+                LogKind::Failure => "F",
+            }])
+        })
+        .collect();
+    let res = match res {
+        Ok(_) => "ok".to_string(),
+        Err(e) => {
+            let d = format!("{e:?}");
+            d[..d.find(|c: char| !(c.is_alphanumeric() || c == '_')).unwrap_or(d.len())].to_string()
+        }
+    };
+    json!({"r": "ok", "res": res, "items": items})
+}
+
+pub fn run(case: &Value) -> Value {
+    let mut out = match case["op"].as_str().unwrap_or("e2e") {
+        "unit" => run_unit(case),
+        _ => run_e2e(case),
+    };
+    out["id"] = case["id"].clone();
+    out
 }
